@@ -232,3 +232,27 @@ Proof. exact pcd_string_entities. Qed.
 Theorem C08_entities_examples :
   Unesc (BS "a&#x41;&lt;&#66;&amp;") (BS "aA<B&") /\ (forall u, ~ Unesc (BS "&#x+41;") u) /\ (forall u, ~ Unesc (BS "a & b") u).
 Proof. exact (conj unesc_ex (conj unesc_signed_out unesc_bare_amp_out)). Qed.
+
+(* ---------- an identifiable element without SHORT-NAME (Xml/StrictValidShortName.v) ---------- *)
+From AV Require Import Xml.RoundTripElem Xml.StrictValidShortName.
+(* [U] in EVERY node of a strictly loaded tree whose type is named in the file version the first content item is a
+   SHORT-NAME sub-element (named_first: hereditarily).  So an identifiable element without SHORT-NAME is never accepted
+   by strict loading, whatever its spelling - <X/> and <X></X> are both read as an element without content - and neither
+   is one whose SHORT-NAME is not the first sub element (fix f86b268).  Every table set, every byte string. *)
+Theorem C08_named_first :
+  forall (T : tables) (tab_el tab_at tab_en : nametab) (check_fn : N -> list N -> res bool)
+         (float_parse : list N -> option N) (bs : list N) (t : etree) (st : pstate),
+  load true T tab_el tab_at tab_en check_fn float_parse bs = Val (Ret t st) -> named_first T (p_version st) t.
+Proof. exact load_named_first. Qed.
+
+(* named_first at a node, in words *)
+Theorem C08_named_first_unfold :
+  forall (T : tables) (ver name : N) (ty : etype) (attrs : list (N * cdata)) (content : list (etree + cdata)) (comment : option (list N)),
+  named_first T ver (ENode name ty attrs content comment) -> is_named_in_version T ty ver = Val true ->
+  exists sn rest, content = inl sn :: rest /\ e_name sn = name_short_name T.
+Proof. exact named_first_root. Qed.
+
+(* [F] both spellings of an AR-PACKAGE without content are rejected by strict loading (RequiredSubelementMissing) *)
+Theorem C08_nameless_rejected_example :
+  strict_err doc_empty_tag = Some RequiredSubelementMissing /\ strict_err doc_empty_pair = Some RequiredSubelementMissing.
+Proof. exact nameless_rejected. Qed.
